@@ -192,3 +192,73 @@ Definition run_dispatch (p : string * string) : V :=
         pair); the constant observation exists because the driver expects a
         case file per suite — nothing is compared here ---- *)
 Definition run_live (_ : bool) : V := VS "ok".
+
+(* ================================================================== *)
+(* struct coder (Model/SerialStats.v) on the concrete instance: a float64 is
+   its bit pattern, a number literal is what strconv makes of it *)
+From Verif Require Import Model.SerialShape Model.SerialStats.
+From Verif Require Gen.GoStats.
+
+Fixpoint jv_unhex (j : jv cnum) : jv cnum :=
+  match j with
+  | JvStr s => JvStr (string_of_hex s)
+  | JvArr l => JvArr (map jv_unhex l)
+  | JvObj l => JvObj (map (fun kv => (string_of_hex (fst kv), jv_unhex (snd kv))) l)
+  | other => other
+  end.
+
+Definition omap {A B} (f : A -> B) (o : option A) : option B :=
+  match o with Some a => Some (f a) | None => None end.
+
+Fixpoint gval_unhex (v : gval Z) : gval Z :=
+  match v with
+  | GStr s => GStr (string_of_hex s)
+  | GSlice o => GSlice (omap (map gval_unhex) o)
+  | GMap o => GMap (omap (map (fun kv => (string_of_hex (fst kv), gval_unhex (snd kv)))) o)
+  | GPtr (Some p) => GPtr (Some (gval_unhex p))
+  | GStruct l => GStruct (map gval_unhex l)
+  | other => other
+  end.
+
+Fixpoint gval_V (v : gval Z) : V :=
+  match v with
+  | GStr s => VL [VS "s"; VH s]
+  | GBool b => VB b
+  | GInt z => VZ z
+  | GFlt f => VL [VS "f"; VZ f]
+  | GSlice None => VL [VS "nil-slice"]
+  | GSlice (Some l) => VL [VS "slice"; VL (map gval_V l)]
+  | GMap None => VL [VS "nil-map"]
+  | GMap (Some l) => VL [VS "map"; VL (map (fun kv => VL [VH (fst kv); gval_V (snd kv)]) l)]
+  | GPtr None => VL [VS "nil-ptr"]
+  | GPtr (Some p) => VL [VS "ptr"; gval_V p]
+  | GStruct l => VL [VS "struct"; VL (map gval_V l)]
+  end.
+
+(* ---- statsval suite: (Go type, the whole value) through Marshal and
+        UnmarshalStatsJSON ---- *)
+Definition run_statsval (p : string * gval Z) : V :=
+  let '(name, v) := p in
+  match find_stats_ty all_stats_ty name with
+  | None => VS "no-such-stats-type"
+  | Some t =>
+      Vresult (fun r => VL [VS (stats_ty_name (fst r)); gval_V (snd r)])
+              (c_stats_roundtrip t (gval_unhex v))
+  end.
+
+(* ---- djson suite: json.Unmarshal of an arbitrary tree into a
+        SessionDescription ("sd") or an ICECandidateInit ("ci") ---- *)
+Definition run_djson (p : string * jv cnum) : V :=
+  let '(target, j) := p in
+  let shape := if String.eqb target "sd" then Some GoStats.shape_SessionDescription
+               else if String.eqb target "ci" then Some GoStats.shape_ICECandidateInit
+               else None in
+  match shape with
+  | None => VS "no-such-target"
+  | Some fs => Vresult gval_V (c_unmarshal (TStruct fs) (jv_unhex j))
+  end.
+
+(* ---- dstats suite: UnmarshalStatsJSON on an arbitrary tree ---- *)
+Definition run_dstats (j : jv cnum) : V :=
+  Vresult (fun r => VL [VS (stats_ty_name (fst r)); gval_V (snd r)])
+          (c_unmarshal_stats (jv_unhex j)).
